@@ -157,10 +157,54 @@ impl rustc_driver::Callbacks for Cb {
                                     ])
                                 })
                                 .collect();
-                            J::Obj(vec![("name", J::s(v.name.as_str())), ("fields", J::Arr(fs))])
+                            // source text of the (inert) attributes of the variant, e.g. logos' #[regex("..")]
+                            let at: Vec<J> = tcx
+                                .get_all_attrs(v.def_id)
+                                .iter()
+                                .filter_map(|a| match a {
+                                    hir::Attribute::Unparsed(n) => Some(tcx.sess.source_map().span_to_snippet(n.span).unwrap_or_else(|_| format!("{:?}", n.path))),
+                                    _ => None,
+                                })
+                                .map(|t| J::s(&t))
+                                .collect();
+                            J::Obj(vec![("name", J::s(v.name.as_str())), ("fields", J::Arr(fs)), ("attrs", J::Arr(at))])
                         })
                         .collect();
+                    let item_attrs: Vec<J> = tcx
+                        .get_all_attrs(did)
+                        .iter()
+                        .filter_map(|a| match a {
+                                    hir::Attribute::Unparsed(n) => Some(tcx.sess.source_map().span_to_snippet(n.span).unwrap_or_else(|_| format!("{:?}", n.path))),
+                                    _ => None,
+                                })
+                        .map(|t| J::s(&t))
+                        .collect();
+                    // Derive-helper attributes (logos' #[regex(..)] / #[token(..)] / #[logos(..)]) do not survive into the
+                    // HIR: for enums that carry them the source text of the item (with the attribute lines in front of
+                    // it) is exported, so that a rule can read the token patterns.
+                    let mut src_text = String::new();
+                    if !item.span.from_expansion() {
+                        let sm = tcx.sess.source_map();
+                        if let Ok(body) = sm.span_to_snippet(item.span) {
+                            if body.contains("#[regex") || body.contains("#[token") {
+                                let file = sm.lookup_source_file(item.span.lo());
+                                let mut head = String::new();
+                                if let Some(text) = file.src.as_ref() {
+                                    let off = (item.span.lo().0 - file.start_pos.0) as usize;
+                                    let before: Vec<&str> = text[..off.min(text.len())].lines().collect();
+                                    let mut k = before.len();
+                                    while k > 0 && (before[k - 1].trim_start().starts_with("#[") || before[k - 1].trim().is_empty() && k < before.len() && false) {
+                                        k -= 1;
+                                    }
+                                    head = before[k..].join("\n");
+                                }
+                                src_text = format!("{}\n{}", head, body);
+                            }
+                        }
+                    }
                     adts.push(J::Obj(vec![
+                        ("src", J::s(&src_text)),
+                        ("attrs", J::Arr(item_attrs)),
                         ("id", J::s(&def_id_str(tcx, did))),
                         ("name", J::s(&tcx.def_path_str(did))),
                         ("enum", J::Bool(adt.is_enum())),
